@@ -184,7 +184,7 @@ class H:
     pass
 
 
-def run_app(tape, r, site, argv, concurrency, sandbox, setup=None, budget_vtime=200_000.0, max_callbacks=1_500_000):
+def run_app(tape, r, site, argv, concurrency, sandbox, setup=None, budget_vtime=200_000.0, max_callbacks=400_000):
     """Build and run the real application against the site. Returns dict(exit, server, rows, crashed, hang)."""
     h = H()
     h.r = r
@@ -268,6 +268,8 @@ def read_rows(dbpath):
         for row in cur:
             rows.append({'url': row[0], 'status': row[1], 'try_count': row[2], 'level': row[3], 'inline_level': row[4],
                          'parent': row[5], 'root': row[6], 'status_code': row[7]})
+    except sqlite3.OperationalError:
+        pass        # killed before the schema existed
     finally:
         con.close()
     return rows
@@ -638,7 +640,7 @@ def judge_c02(r, site, starts, opts, out, rows, own_hosts=None, phase=''):
             r.probes['waiver_used'] += 1
             continue
         hop = 'first-request' if first else 'redirect-hop'
-        r.violate(P, 'out-of-scope-request', '%s:%s%s' % (hop, '+'.join(failed), phase),
+        r.violate(P, 'out-of-scope-request', '%s:%s%s' % (hop, '+'.join(failed), ':resumed' if phase else ''),
                   '%s requested for item %s (level %r, inline %r, parent %r, tries %r) although rule(s) %r fail; options %r; own hosts %r%s'
                   % (e['url'], rec['url'], rec['level'], rec['inline_level'], rec['parent_url'], rec['try_count'], failed,
                      {k: v for k, v in opts.items() if v not in (None, False, ())}, own, phase))
@@ -675,6 +677,13 @@ def run(tape, prop, tier):
         if prop == 'C20':
             from harness import robots as hrobots
             return hrobots.run_c20(tape, r, tier, sandbox)
+        if prop == 'C02' and tape.chance(1, 8, 'resumed_history'):
+            # resumed histories (kill, then the same command again) are judged by the same monitor
+            os.chdir(cwd)
+            from harness import crash
+            rr = crash.run(tape, 'C02', tier)
+            rr.sub = 'resumed'
+            return rr
         flaky = []
         if prop == 'C01':
             site, starts, opts = gen_c01(tape, tier)
